@@ -16,7 +16,12 @@ def companions():
         "ShapeData.tla": shp.shape_data_module(shp.quick_shapes() + shp.load_shapes() + shp.boundary_shapes()),
         "RunConf.tla": runconf.runconf(1, "local", "package", [["eval"]], False, [1], ["one"]),
     }
+    from . import fsconf, valuesconf
     res = {
+        "LocalStoreFSMC.tla": {"FsConf.tla": fsconf.module("crash_first_keep", "atomic")},
+        "FsTrace.tla": {},
+        "DdsValues.tla": {"ValuesConf.tla": valuesconf.module("values", 1)},
+        "ValuesTrace.tla": {"ValuesConf.tla": valuesconf.module("values", 1)},
         "DdsEval.tla": eval_files,
         "StoreModel.tla": {"StoreConf.tla": storeconf.design(["k1", "k2"], ["k2"], 2, 1, False, "local", 3, False)},
         "StoreTrace.tla": {"StoreConf.tla": storeconf.trace()},
@@ -27,6 +32,16 @@ def companions():
     except ImportError:
         pass
     return res
+
+
+def fsconf_mod() -> str:
+    from . import fsconf
+    return fsconf.module("crash_first_keep", "atomic")
+
+
+def _strip_hash(s: str) -> str:
+    import re
+    return re.sub(r"\\\* (BEGIN|END) TRANSLATION.*", "", s)
 
 
 def main() -> int:
@@ -49,6 +64,17 @@ def main() -> int:
     unchecked = [m for m in tops if m not in comp]
     if unchecked:
         print("library modules (checked through their users): %s" % ", ".join(unchecked))
+    # the committed PlusCal translation is up to date
+    d = common.stage_spec({"FsConf.tla": fsconf_mod()}, "setup_pcal")
+    before = open(os.path.join(d, "LocalStoreFS.tla")).read()
+    p = subprocess.run(["java", "-cp", common.TLA_CP, "pcal.trans", "-nocfg", "LocalStoreFS.tla"], cwd=d,
+                       stdout=subprocess.PIPE, stderr=subprocess.STDOUT)
+    after = open(os.path.join(d, "LocalStoreFS.tla")).read()
+    same = _strip_hash(before) == _strip_hash(after)
+    print("pcal LocalStoreFS.tla           %s" % ("translation up to date" if p.returncode == 0 and same else "STALE/FAILED"))
+    if p.returncode != 0 or not same:
+        print(p.stdout.decode()[-800:])
+        rc = 1
     sys.path.insert(0, common.REPO)
     import dds  # noqa
     print("import dds %s from %s" % (dds.__version__, os.path.dirname(dds.__file__)))
